@@ -1031,7 +1031,8 @@ struct HttpEngine : Engine
 			"unlimited, over loss-free routes with latency 0-150 ms, bandwidth 20 kB/s-infinite and path MTU 64-9000; client end-of-file at a generated "
 			"offset; stop() from a timer, at a handler boundary (step hook) or after quiescence, followed by a re-bind of the port and connects. The received "
 			"stream is split by content-length and every response compared with the model; closure, service of the next client and refusal after stop() are "
-			"judged at quiescence. distinct = distinct shape hash; non-trivial = at least one response verified and (a request cut across writes, or several "
+			"judged at quiescence; a connection live at stop() is judged again from the moment it answers a request sent after stop(), and an answered connection-ending "
+			"request must be followed by the close also after stop(). distinct = distinct shape hash; non-trivial = at least one response verified and (a request cut across writes, or several "
 			"requests in one write, or two clients served, or stop() called)";
 	}
 	int64_t budget(std::string const&, int tier) const override { return tier ? 600000 : 12000; }
